@@ -391,15 +391,23 @@ func runC45(c *Ctx) {
 			ok := false
 			ast.Inspect(l.Body, func(n ast.Node) bool {
 				r, isR := n.(*ast.RangeStmt)
-				if !isR || r.Key == nil || r.Value == nil || len(r.Body.List) != 1 {
+				if !isR || r.Key == nil || r.Value == nil {
 					return true
 				}
-				as, isAs := r.Body.List[0].(*ast.AssignStmt)
-				if !isAs || len(as.Lhs) != 1 {
-					return true
+				// the body stores the element at its own index on every iteration (other statements may surround it)
+				var as *ast.AssignStmt
+				var ix *ast.IndexExpr
+				for _, st := range r.Body.List {
+					a, isAs := st.(*ast.AssignStmt)
+					if !isAs || len(a.Lhs) != 1 || len(a.Rhs) != 1 {
+						continue
+					}
+					x, isIx := a.Lhs[0].(*ast.IndexExpr)
+					if isIx && isObj(info, x.Index, info.ObjectOf(r.Key.(*ast.Ident))) && isObj(info, a.Rhs[0], info.ObjectOf(r.Value.(*ast.Ident))) {
+						as, ix = a, x
+					}
 				}
-				ix, isIx := as.Lhs[0].(*ast.IndexExpr)
-				if !isIx || !isObj(info, ix.Index, info.ObjectOf(r.Key.(*ast.Ident))) || !isObj(info, as.Rhs[0], info.ObjectOf(r.Value.(*ast.Ident))) {
+				if as == nil || exitsLoopEarly(r.Body) {
 					return true
 				}
 				// result := make([]any, len(src)) with src == range operand; and the closure returns result
